@@ -1,3 +1,4 @@
+from copy import deepcopy
 from collections import deque
 
 from typedpy.structures import Field, Structure, TypedField, ImmutableField
@@ -111,7 +112,7 @@ class Deque(
                 return [self.items.serialize(x) for x in value]
             elif isinstance(self.items, list):
                 return [self.items[i].serialize(x) for (i, x) in enumerate(value)]
-        return value
+        return deepcopy(list(value))
 
 
 class ImmutableDeque(ImmutableField, Deque):
